@@ -435,6 +435,59 @@ func checkTypedValueCache(r *Reporter, p *Prog) {
 				}
 				continue
 			}
+			// read-through (Compute): before anything is written to the store the cache may record what the
+			// store just reported - exactly the pair the computation is told: hasCached = &exists and,
+			// only on the edge on which exists is true, valueCached = &currentValue (a cached value means
+			// "present" to every reader of the cache), both behind the store read
+			if rw.method == "Compute" {
+				var cf *ast.CallExpr
+				for _, c := range f.Calls(func(c *ast.CallExpr) bool {
+					id, ok := ast.Unparen(c.Fun).(*ast.Ident)
+					if !ok || len(c.Args) != 2 {
+						return false
+					}
+					v, isVar := info.Uses[id].(*types.Var)
+					if !isVar {
+						return false
+					}
+					_, isSig := v.Type().Underlying().(*types.Signature)
+					return isSig
+				}) {
+					cf = c
+				}
+				if cf != nil {
+					valObj, hasObj := objOfIdent(info, cf.Args[0]), objOfIdent(info, cf.Args[1])
+					var rhsObj types.Object
+					if u, ok := ast.Unparen(as.Rhs[0]).(*ast.UnaryExpr); ok && u.Op == token.AND && len(as.Lhs) == 1 {
+						rhsObj = objOfIdent(info, u.X)
+					}
+					isGet := func(n ast.Node) bool { c, ok := n.(*ast.CallExpr); return ok && matchCall(c, "kv.Get") }
+					isSet := func(n ast.Node) bool { c, ok := n.(*ast.CallExpr); return ok && matchCall(c, "kv.Set") }
+					_, beforeRead := f.PathFromEntryAvoiding(w, isGet, nil)
+					afterWrite := false
+					for _, sp := range f.Find(isSet) {
+						if _, reaches := f.reach(sp, nil, func(q Point, atExit bool) bool { return !atExit && f.At(q, w) }); reaches {
+							afterWrite = true
+						}
+					}
+					cpt, okc := f.PointOf(cf)
+					_, toldLater := f.reach(w, nil, func(q Point, atExit bool) bool { return okc && !atExit && f.At(q, cpt) })
+					readThrough := rhsObj != nil && hasObj != nil && valObj != nil && !beforeRead && !afterWrite && toldLater
+					if readThrough {
+						switch {
+						case field == "hasCached" && rhsObj == hasObj:
+							r.Pass("cache/after-store-success", key+" (read-through)", f.PosOf(w), "records, behind the store read and before any store write, the presence flag the computation is told")
+							continue
+						case field == "valueCached" && rhsObj == valObj:
+							trueEdges, _ := f.VarEdges(hasObj)
+							if _, only := f.OnlyThroughEdges(w, trueEdges); only {
+								r.Pass("cache/after-store-success", key+" (read-through)", f.PosOf(w), "records, behind the store read and only when the key was found, the value the computation is told")
+								continue
+							}
+						}
+					}
+				}
+			}
 			for _, want := range rw.success {
 				calls := f.Calls(func(c *ast.CallExpr) bool { return matchCall(c, want) })
 				if len(calls) == 0 {
